@@ -15,6 +15,8 @@
 #include "MSSMNoFV/gm2_1loop_helpers.hpp"
 #include "MSSMNoFV/gm2_2loop_helpers.hpp"
 #include "gm2_uncertainty_helpers.hpp"
+#include "THDM/gm2_1loop_helpers.hpp"
+#include "THDM/gm2_2loop_helpers.hpp"
 
 #include <functional>
 #include <string>
@@ -179,12 +181,12 @@ inline const std::vector<MssmFn>& mssm_fns()
    return fns;
 }
 
-inline NV mssm_results(const gm2calc::MSSMNoFV_onshell& m)
+inline NV mssm_results(const gm2calc::MSSMNoFV_onshell& m, std::vector<std::string>* thrown = nullptr)
 {
    NV v;
    for (const auto& f : mssm_fns()) {
       double x = std::nan("");
-      try { x = f.f(m); } catch (...) { x = std::nan(""); }
+      try { x = f.f(m); } catch (...) { x = std::nan(""); if (thrown) thrown->push_back(f.name); }
       v.push_back({f.name, x});
    }
    return v;
@@ -376,6 +378,59 @@ inline NV thdm_state(const gm2calc::THDM& m)
    push_mat(v, "sm_mv", sm.get_mv()); push_cmat(v, "sm_ckm", sm.get_ckm());
    v.push_back({"have_problem", m.get_problems().have_problem() ? 1.0 : 0.0});
    v.push_back({"have_warning", m.get_problems().have_warning() ? 1.0 : 0.0});
+   return v;
+}
+
+// parameter structs of the helper entry points, filled from the public getters exactly as
+// src/THDM/gm2_{1,2}loop.cpp do (needed to observe the documented sub-parts and, for C11, to
+// place masses exactly on a coincidence)
+inline gm2calc::thdm::THDM_B_parameters thdm_B_pars(const gm2calc::THDM& model)
+{
+   gm2calc::thdm::THDM_B_parameters p;
+   p.alpha_em = model.get_alpha_em(); p.mm = model.get_MFe(1); p.mw = model.get_MVWm(); p.mz = model.get_MVZ();
+   p.mhSM = model.get_sm().get_mh(); p.mA = model.get_MAh(1); p.mHp = model.get_MHm(1); p.mh = model.get_Mhh();
+   p.tb = model.get_tan_beta(); p.zetal = model.get_zeta_l();
+   p.cos_beta_minus_alpha = model.get_cos_beta_minus_alpha();
+   p.lambda5 = model.get_LambdaFive(); p.lambda67 = model.get_LambdaSixSeven();
+   return p;
+}
+
+inline gm2calc::thdm::THDM_F_parameters thdm_F_pars(const gm2calc::THDM& model)
+{
+   gm2calc::thdm::THDM_F_parameters p;
+   p.alpha_em = model.get_alpha_em(); p.mm = model.get_MFe(1); p.mw = model.get_MVWm(); p.mz = model.get_MVZ();
+   p.mhSM = model.get_sm().get_mh(); p.mA = model.get_MAh(1); p.mHp = model.get_MHm(1); p.mh = model.get_Mhh();
+   p.ml = model.get_MFe(); p.mu = model.get_MFu(); p.md = model.get_MFd();
+   p.yuh = model.get_yuh(); p.yuH = model.get_yuH(); p.yuA = model.get_yuA(); p.yuHp = model.get_yuHp();
+   p.ydh = model.get_ydh(); p.ydH = model.get_ydH(); p.ydA = model.get_ydA(); p.ydHp = model.get_ydHp();
+   p.ylh = model.get_ylh(); p.ylH = model.get_ylH(); p.ylA = model.get_ylA(); p.ylHp = model.get_ylHp();
+   p.vckm = model.get_sm().get_ckm();
+   return p;
+}
+
+inline gm2calc::thdm::THDM_1L_parameters thdm_1L_pars(const gm2calc::THDM& model)
+{
+   gm2calc::thdm::THDM_1L_parameters p;
+   p.alpha_em = model.get_alpha_em(); p.mm = model.get_MFe(1); p.mw = model.get_MVWm(); p.mz = model.get_MVZ();
+   p.mhSM = model.get_sm().get_mh(); p.mA = model.get_MAh(1); p.mHp = model.get_MHm(1);
+   p.ml = model.get_MFe(); p.mv = model.get_MFv(); p.mh = model.get_Mhh();
+   p.ylh = model.get_ylh(); p.ylH = model.get_ylH(); p.ylA = model.get_ylA(); p.ylHp = model.get_ylHp();
+   return p;
+}
+
+// documented sub-parts of the THDM two-loop result
+inline NV thdm_parts(const gm2calc::THDM& m)
+{
+   NV v;
+   try {
+      const auto pb = thdm_B_pars(m);
+      const auto pf = thdm_F_pars(m);
+      v.push_back({"B", gm2calc::thdm::amu2L_B(pb)}); v.push_back({"B_EWadd", gm2calc::thdm::amu2L_B_EWadd(pb)});
+      v.push_back({"B_nonYuk", gm2calc::thdm::amu2L_B_nonYuk(pb)}); v.push_back({"B_Yuk", gm2calc::thdm::amu2L_B_Yuk(pb)});
+      v.push_back({"F", gm2calc::thdm::amu2L_F(pf)}); v.push_back({"F_charged", gm2calc::thdm::amu2L_F_charged(pf)});
+      v.push_back({"F_neutral", gm2calc::thdm::amu2L_F_neutral(pf)});
+      v.push_back({"amu1L_pars", gm2calc::thdm::amu1L(thdm_1L_pars(m))});
+   } catch (...) {}
    return v;
 }
 
